@@ -194,6 +194,24 @@ def check_user_object(rec, name, inner, before, anom, inp, was_fitted=False):
                       "C17.user_object", inp)
 
 
+def merges(got, want):
+    """`got` is `want` with runs of adjacent intervals reported as one interval (and nothing else wrong)."""
+    if not got or len(got) >= len(want):
+        return False
+    cuts = {a for a, _ in want} | {b for _, b in want}
+    cover = lambda ivs: {i for a, b in ivs for i in range(a, b)}                # noqa: E731
+    return cover(got) == cover(want) and all(a in cuts and b in cuts for a, b in got)
+
+
+def _plain_run_is_right(make_inner, x, stat, lo, hi, want):
+    from skchange.anomaly_detectors import StatThresholdAnomaliser
+    try:
+        X = represent(x, "df")
+        return sorted(read_intervals(StatThresholdAnomaliser(make_inner(), stat=stat, stat_lower=lo, stat_upper=hi).fit(X).predict(X))) == want
+    except Exception:                                                           # noqa: BLE001
+        return False
+
+
 def read_intervals(y):
     arr = y["ilocs"].array
     return [(int(a), int(b)) for a, b in zip(arr.left, arr.right)]
@@ -229,10 +247,13 @@ def check_case(rec, name, make_inner, x, cps, stat_name, lo, hi, rep, inp, prefi
             key = f"StatThresholdAnomaliser.predict:raises:{type(err).__name__}"
         rec.violation(key, f"{desc}: raised {type(err).__name__}: {str(err)[:160]}; the statement expects the anomalies {want}", "C17.flags", inp)
     elif sorted(got) != want:
-        adjacent = any(a[1] == b[0] for a, b in zip(want, want[1:]))
-        merged = adjacent and len(got) < len(want)
-        key = "StatThresholdAnomaliser.predict:adjacent-merged" if merged else (
-            "StatThresholdAnomaliser.predict:data-column-named-labels" if rep.endswith(":labels") else "StatThresholdAnomaliser.predict:wrong-segments")
+        if merges(got, want):
+            key = "StatThresholdAnomaliser.predict:adjacent-merged"
+        elif rep != "df" and _plain_run_is_right(make_inner, x, stat, lo, hi, want):
+            key = ("StatThresholdAnomaliser.predict:data-column-named-labels" if rep.endswith(":labels")
+                   else f"StatThresholdAnomaliser.predict:wrong-segments:{rep}")
+        else:
+            key = "StatThresholdAnomaliser.predict:wrong-segments"
         rec.violation(key, f"{desc}: reported {got}, the out-of-range segments are {want}", "C17.flags", inp)
     if err is None or hasattr(anom, "change_detector_"):
         check_user_object(rec, name, inner, before, anom, inp, was_fitted=prefit is not None)
